@@ -2,7 +2,7 @@
    it calls (_add_missing_taxon, _get_*_genome_*, DuplicationNode.set_MRCA), written as
    structural recursion over the well-nested element tree: hog_stack is the recursion stack,
    the open group's children are the frame, paralog_stack is the `pg` argument.
-   Behaviour modelled is that of /repo with findings F1 and F2 repaired.
+   Behaviour modelled is that of /repo with findings F1, F2 and F9 repaired.
    Model only: no proofs in this file. *)
 From Coq Require Import List Arith Bool String.
 From PyHam Require Import Tax Ortho.
@@ -297,6 +297,9 @@ Fixpoint eval_item (t : stree) (genes : list (string * taxon)) (it : item) (pg :
                 | [] => ret acc
                 | x :: r => acc' <- eval_item t genes x (Some k) acc ;; go r acc'
                 end) body fr ;;
+      (* finding F9 repaired: the element must have added at least one copy to its duplication *)
+      (if Nat.eqb (List.length (members_of k (f_kids fr'))) (List.length (members_of k (f_kids fr)))
+       then fail ValueError else ret tt) ;;;
       set_mrca k (members_of k (f_kids fr')) ;;;
       ret fr'
   | IProp n v =>
